@@ -200,7 +200,7 @@ func runC02(c *core.Ctx) {
 			if f, _ := core.FieldOf(fa); f != r.Running {
 				return
 			}
-			for _, ref := range *fa.Referrers() {
+			for _, ref := range core.AddrUses(fa) {
 				c.Instance("R5")
 				name := "flag-access/" + core.FName(fn)
 				a := core.AsAtomic(ref)
